@@ -21,6 +21,9 @@ History ops (JSON-able):
     ["X", now]                                               periodic purge
     ["LA", id] / ["LR", id]                                  add / remove a recording listener
     ["BA", id, now, [type...]] / ["BR", id]                  create / cancel a browser
+    ["BP", id, change, name, new_id, [type...]]              plan: when browser id's service listener is told change ("A"/"R"/"U") for the
+                                                             instance `name` (case-insensitively) it creates browser new_id on the types,
+                                                             once, from INSIDE the handler (the "browse the types, then browse each type" pattern)
 record spec:  [kind, name, type, class15, flush, ttl, *rdata]
     p: alias | s: priority, weight, port, server | t: hex text | a: hex address | h: cpu, os | n: next_name, [rdtypes]
 All times are integer milliseconds (carried as integer-valued floats into the library), never 0.
@@ -350,12 +353,15 @@ class _SvcListener(ServiceListener):
 
     def add_service(self, zc, type_, name):
         self.w.cbs.append((self.bid, "A", type_, name, self._seen(zc, type_, name), self.w.snapshot()))
+        self.w.on_service_event(self.bid, "A", name)
 
     def remove_service(self, zc, type_, name):
         self.w.cbs.append((self.bid, "R", type_, name, None, self.w.snapshot()))
+        self.w.on_service_event(self.bid, "R", name)
 
     def update_service(self, zc, type_, name):
         self.w.cbs.append((self.bid, "U", type_, name, None, self.w.snapshot()))
+        self.w.on_service_event(self.bid, "U", name)
 
 
 class _DummyTask:
@@ -391,6 +397,36 @@ class _ThreadedLike(_zc_browser._ServiceBrowserBase):
     def __init__(self, *a, **kw):
         super().__init__(*a, **kw)
         self.queue = _InlineQueue(self)
+
+
+class _AsyncLike(_zc_browser._ServiceBrowserBase):
+    """the asyncio flavour (inline delivery from the completion loop)"""
+
+
+def _browser_hash(self):
+    # small distinct hashes (7 + id, ids 0..6): with the fillers below the listener set and its copies always have tables of >= 16
+    # slots, so a set of these iterates in ascending hash order: recording listeners (their ids), then browsers by id
+    return 7 + int(getattr(self, "_vbid", 0))
+
+
+_AsyncLike.__hash__ = _browser_hash
+_ThreadedLike.__hash__ = _browser_hash
+
+
+class _Filler(RecordUpdateListener):
+    """an inert listener; three of them keep the set's hash table large enough for the small hashes above to be slot numbers"""
+
+    def __init__(self, h):
+        self.h = h
+
+    def __hash__(self):
+        return self.h
+
+    def async_update_records(self, zc, now, records):
+        pass
+
+    def async_update_records_complete(self):
+        pass
 
 
 def start_browser(b):
@@ -461,6 +497,9 @@ class World:
         self.legacy = []
         self.legacy_listener = _Legacy(self)
         self.rm.async_add_listener(self.legacy_listener, None)
+        for h in (5, 14, 15):
+            self.rm.async_add_listener(_Filler(h), None)
+        self.plans = []
         self._listeners = {}
         self.browsers = {}
         self.log = []
@@ -478,6 +517,44 @@ class World:
         if l is None:
             l = self._listeners[lid] = _Recording(self, lid)
         return l
+
+    def create_browser(self, bid, types, ticking=False):
+        """what a consumer does to start a browser: construct it and run the real `_async_start` (listener registration with the PTR
+        questions = purge + initial replay).  Even ids: the asyncio flavour's callback path; odd ids: the threaded flavour's override.
+        A second, plain handler is registered next to the listener (Signal.fire with several handlers)"""
+        cls = _AsyncLike if bid % 2 == 0 else _ThreadedLike
+
+        def second(zeroconf, service_type, name, state_change, _bid=bid):
+            self.cbs2.append((_bid, {"Added": "A", "Removed": "R", "Updated": "U"}[state_change.name], service_type, name))
+
+        b = cls(self.zc, list(types), handlers=[second], listener=_SvcListener(self, bid))
+        b._vbid = bid
+        old = self.browsers.pop(bid, None)
+        if old is not None:
+            old._async_cancel()
+        self.browsers[bid] = b
+        if ticking:
+            _TICKING[0] = 0       # the clock ticks per reading during the creation (it is read once since the D23b repair)
+        try:
+            start_browser(b)      # the real _async_start
+        finally:
+            if ticking:
+                _TICKING[0] = None
+
+    def on_service_event(self, bid, change, name):
+        """run the plan of browser `bid`'s service listener for this event, if it has one: create a browser from inside the handler"""
+        for k, pl in enumerate(self.plans):
+            if pl[0] == bid and pl[1] == change and pl[2].lower() == name.lower():
+                del self.plans[k]
+                self.log.append(("b", bid, None, [bid, pl[3]], None, self.depth))
+                keep = self.zc.notified   # the replay to the new browser notifies too; `n` reports async_updates_complete(new) only
+                self.depth += 1
+                try:
+                    self.create_browser(pl[3], pl[4])
+                finally:
+                    self.depth -= 1
+                    self.zc.notified = keep
+                return
 
     def registered_ids(self):
         return sorted(l.lid for l in self.rm.listeners if isinstance(l, _Recording) and l.lid is not None)
@@ -549,6 +626,7 @@ class World:
                 try:
                     _zc_engine.AsyncEngine._async_cache_cleanup(self.engine)
                 finally:
+                    obs["ticks"] = _TICKING[0]      # clock readings during the op (each 1 ms later than the one before)
                     _TICKING[0] = None
             elif k == "LA":
                 self.rm.async_add_listener(self.listener(op[1]), None)
@@ -556,29 +634,13 @@ class World:
                 self.rm.async_remove_listener(self.listener(op[1]))   # unguarded: absent -> whatever the code does
             elif k == "BA":
                 _CLOCK[0] = float(op[2])
-                bid = op[1]
-                # even ids: the asyncio flavour's callback path; odd ids: the threaded flavour's override.  A second, plain
-                # handler is registered next to the listener (Signal.fire with several handlers)
-                cls = _zc_browser._ServiceBrowserBase if bid % 2 == 0 else _ThreadedLike
-
-                def second(zeroconf, service_type, name, state_change, _bid=bid):
-                    self.cbs2.append((_bid, {"Added": "A", "Removed": "R", "Updated": "U"}[state_change.name], service_type, name))
-
-                b = cls(self.zc, list(op[3]), handlers=[second], listener=_SvcListener(self, bid))
-                old = self.browsers.pop(bid, None)
-                if old is not None:
-                    old._async_cancel()
-                self.browsers[bid] = b
-                if len(op) > 4 and op[4]:
-                    _TICKING[0] = 0       # the clock ticks per reading during the creation (it is read once since the D23b repair)
-                try:
-                    start_browser(b)      # the real _async_start
-                finally:
-                    _TICKING[0] = None
+                self.create_browser(op[1], op[3], ticking=bool(len(op) > 4 and op[4]))
             elif k == "BR":
                 b = self.browsers.pop(op[1], None)
                 if b is not None:
                     b._async_cancel()     # the real cancel (scheduler.stop, async_remove_listener, task.cancel)
+            elif k == "BP":
+                self.plans.append((op[1], op[2], op[3], op[4], list(op[5])))
             else:
                 raise HarnessError("unknown op %r" % (op,))
         except HarnessError:
@@ -667,6 +729,8 @@ def render_nest(obs):
         if kind == "a":
             if x[2] == 2:
                 out.append("Q%d:%d>%d@%d" % (depth, lid, x[3], t))
+        elif kind == "b":
+            out.append("B%d:%d>%d" % (depth, x[0], x[1]))
         elif depth >= 1:
             if kind == "u":
                 if lid is None:
@@ -711,6 +775,8 @@ def render(obs):
         return "BA u=%s c1=%s c2=%s cb=%s" % (u, _ids(obs["c1"]), _ids(obs["c2"]), render_cb(obs["cb"]))
     if k == "BR":
         return "BR"
+    if k == "BP":
+        return "BP"
     raise HarnessError(k)
 
 
@@ -751,6 +817,8 @@ def build_line(probes, ops):
             t += [k, str(op[1])]
         elif k == "BA":
             t += ["BA", str(op[1]), str(op[2]), str(len(op[3]))] + [C.hs(x) for x in op[3]]
+        elif k == "BP":
+            t += ["BP", str(op[1]), op[2], C.hs(op[3]), str(op[4]), str(len(op[5]))] + [C.hs(x) for x in op[5]]
         else:
             raise HarnessError(k)
     return " ".join(t)
@@ -1306,8 +1374,9 @@ class Runner:
             c.update(extra)
         return c
 
-    def add(self, stream, probes, ops, last_only=False, oracle_on=True):
-        """oracle_on=False: the history lies outside the property's quantifier; only the model correspondence is checked"""
+    def add(self, stream, probes, ops, last_only=False, oracle_on=True, model_on=True):
+        """oracle_on=False: the history lies outside the property's quantifier; only the model correspondence is checked.
+        model_on=False: the model does not cover this kind of history (stage O only)"""
         res = self.res
         obs = run_impl(probes, ops, last_only)
         self.histories += 1
@@ -1316,7 +1385,7 @@ class Runner:
         found = self.oracle(probes, ops, obs, res) if oracle_on else []
         if found:
             self._violation(stream, probes, ops, found)
-        if self.model:
+        if self.model and model_on:
             self.pending.append((stream, probes, ops, obs))
             if len(self.pending) >= self.chunk:
                 self.flush()
@@ -1390,7 +1459,8 @@ class Runner:
 def case_probes(case):
     if case.get("probes"):
         return Probes.from_json(case["probes"])
-    return probes_for([r for op in case["ops"] if op[0] == "D" for r in op[2]], [t for op in case["ops"] if op[0] == "BA" for t in op[3]])
+    return probes_for([r for op in case["ops"] if op[0] == "D" for r in op[2]],
+                      [t for op in case["ops"] if op[0] == "BA" for t in op[3]] + [t for op in case["ops"] if op[0] == "BP" for t in op[5]])
 
 
 def replay_case(case, oracle):
